@@ -196,7 +196,9 @@ var ledgerSpecs = []ledgerSpec{
 			d = 9
 		}
 		chain := []string{"P:0:p1", "P:0:p2", "P:0:p3"}
+		diamond := []string{"P:0:p1", "Z:0:side", "P:0:p2", "P:0:p3"}
 		return []ledgerRun{
+			{"diamond-any-order", ledger.Cfg{Nodes: []string{"G", "N1"}, Supply: sp(10, 0), Menu: nil, Hidden: []ledger.TxSpec{tx("side", "R", "B", 1, 0)}, Tick: true, Prefix: diamond, Props: only("C13")}, d + 2, 0, 0},
 			{"chain3-any-order", ledger.Cfg{Nodes: []string{"G", "N1"}, Supply: sp(10, 0), Menu: nil, Tick: true, Dup: true, Prefix: chain, Props: only("C13")}, d, 0, 0},
 			{"chain3+local-proposal", ledger.Cfg{Nodes: []string{"G", "N1"}, Supply: sp(10, 0), Menu: []ledger.TxSpec{tx("loc", "R", "B", 1, 0)}, MaxProposeNodes: 1, Tick: true, Prefix: chain, Props: only("C13")}, d - 1, 0, 0},
 		}
